@@ -60,6 +60,8 @@ class Ctx:
         self.solver = z3.Solver()
         self.solver.set('timeout', timeout_ms)
         self.path = []            # z3 BoolRefs: assumptions + decisions + atom relations
+        self.pathvars = []        # names of the variables of each path constraint
+        self.quick_hits = 0
         self.assumptions = []     # (label, z3 expr)
         self.decisions = list(decisions or [])
         self.pos = 0
@@ -100,6 +102,27 @@ class Ctx:
     def add(self, e):
         self.solver.add(e)
         self.path.append(e)
+        self.pathvars.append(_zvars(e))
+
+    def quick_unsat(self, e, timeout_ms=800):
+        """cheap sufficient test for infeasibility of (path and e): only the path facts whose
+        variables all occur in e (e.g. atom >= 0, input assumptions) are used.  unsat of a
+        subset of the constraints implies unsat of all of them."""
+        ve = _zvars(e)
+        sub = [c for c, vs in zip(self.path, self.pathvars) if vs and vs <= ve]
+        if not sub and not ve:
+            return False
+        self.queries += 1
+        t0 = time.time()
+        s = z3.Solver()
+        s.set('timeout', timeout_ms)
+        s.add(*sub)
+        s.add(e)
+        r = str(s.check())
+        self.solver_s += time.time() - t0
+        if r == 'unsat':
+            self.quick_hits += 1
+        return r == 'unsat'
 
     # -- solving ------------------------------------------------------------
     def check(self, *extra, timeout_ms=None):
@@ -138,6 +161,25 @@ class Ctx:
         return self.check(e)[0]
 
 
+def _zvars(e):
+    """set of names of the uninterpreted constants of a z3 expression"""
+    out = set()
+    seen = set()
+    stack = [e]
+    while stack:
+        t = stack.pop()
+        i = t.get_id()
+        if i in seen:
+            continue
+        seen.add(i)
+        if z3.is_const(t):
+            if t.decl().kind() == z3.Z3_OP_UNINTERPRETED:
+                out.add(t.decl().name())
+        else:
+            stack.extend(t.children())
+    return frozenset(out)
+
+
 CTX = None
 
 
@@ -168,17 +210,23 @@ def branch(e):
     if c.pos < len(c.decisions):
         d = c.decisions[c.pos]
     else:
-        t = c.feasible(e)
-        if t == 'unsat':
-            d = False
+        ne0 = z3.Not(e)
+        if c.quick_unsat(e):
+            d = False              # (the path condition itself is satisfiable by construction)
+        elif c.quick_unsat(ne0):
+            d = True
         else:
-            f = c.feasible(z3.Not(e))
-            if f == 'unsat':
-                d = True
+            t = c.feasible(e)
+            if t == 'unsat':
+                d = False
             else:
-                c.work.append(c.decisions[:c.pos] + [False])
-                c.forks += 1
-                d = True
+                f = c.feasible(ne0)
+                if f == 'unsat':
+                    d = True
+                else:
+                    c.work.append(c.decisions[:c.pos] + [False])
+                    c.forks += 1
+                    d = True
         c.decisions.append(d)
     c.pos += 1
     ne = z3.simplify(z3.Not(e))
@@ -571,6 +619,10 @@ def _cmp(a, o, op):
         if isinstance(b, K):
             if b.v < 0:
                 return f(1, 0)            # sqrt(..) >= 0 > b
+            if b.v == 0:                  # sqrt(..) >= 0 by definition: no sign proof for the radicand needed
+                if op == '<': return False
+                if op == '>=': return True
+                return _cmp(a.rad, K(F0), '==' if op in ('<=', '==') else '!=')
             return _cmp(a.rad, K(b.v * b.v), op)
         if op in ('==', '!=') and False:
             pass
@@ -751,7 +803,7 @@ class AR(SR):
         return AR.mk(a.n * b.n, f)
 
     def _inv(self):
-        if branch(self.n.to_z3() == 0):
+        if not self.n.is_strictly_positive() and branch(self.n.to_z3() == 0):
             raise DivByZeroEvent('divisor can be zero')
         num = self.den()
         n = self.n
@@ -770,6 +822,8 @@ class AR(SR):
             c, p = n.content_split()
             num = num.scale(1 / c)
             f[_fkey(p)] = (p, 1)
+            if len(n.R.sqcands) < 64:
+                n.R.sqcands.setdefault(_fkey(p), p)
         return AR.mk(num, f)
 
     def _signfactors(self):
@@ -812,14 +866,58 @@ class AR(SR):
     def sqrt_force(self):
         c = CTX
         R = c.R
-        if all(e % 2 == 0 for _, e in self.f.values()):
-            rad = self.n
-            f = {k: (p, e // 2) for k, (p, e) in self.f.items()}
-        else:
-            rad = self.n * self.den()
-            f = dict(self.f)
+        # sqrt(n / prod p^e): even exponents leave the radicand; an odd exponent of a factor
+        # that already has a square-root atom a (a^2 = p) contributes 1/a; otherwise the
+        # factor is multiplied into the radicand (sqrt(n/p) = sqrt(n p)/p)
+        rad = self.n
+        f = {}
+        for k, (p, e) in self.f.items():
+            if e % 2 == 0:
+                f[k] = (p, e // 2)
+                continue
+            if k in R.atom_by_rad:
+                a = R.atom_by_rad[k]
+                if e // 2:
+                    f[k] = (p, e // 2)
+                f[a.key()] = (a, f.get(a.key(), (a, 0))[1] + 1)
+            else:
+                rad = rad * p
+                f[k] = (p, e // 2 + 1)
         if rad.iszero():
             return K(F0)
+        # pull known non-negative factors out of the radicand:  sqrt(p^2 q) = p sqrt(q) for p >= 0,
+        # sqrt(p q) = a sqrt(q) when p already has a square-root atom a.  Candidates are the
+        # denominators created so far and the radicands of existing atoms (exact division only).
+        outside = R.one
+        if len(rad.t) > 1:
+            cands = list(R.sqcands.values())
+            changed = True
+            rounds = 0
+            while changed and rounds < 6 and not rad.isconst():
+                changed = False
+                rounds += 1
+                for p in cands:
+                    if len(p.t) > len(rad.t):
+                        continue
+                    k = p.key()
+                    nonneg = p.is_sos_like() or k in R.atom_by_rad
+                    if nonneg:
+                        q = rad.divexact(p)
+                        if q is not None:
+                            q2 = q.divexact(p)
+                            if q2 is not None:
+                                rad, outside, changed = q2, outside * p, True
+                                continue
+                            if k in R.atom_by_rad:
+                                rad, outside, changed = q, outside * R.atom_by_rad[k], True
+                                continue
+            if rad.isconst():
+                cv = rad.constval()
+                if cv < 0:
+                    raise DomainEvent('sqrt of a negative value')
+                sq = _isq(cv)
+                if sq is not None:
+                    return _fixsign(AR.mk(outside.scale(sq), f))
         cf, rp = rad.content_split()
         scale = F1
         if cf > 0:
@@ -841,7 +939,8 @@ class AR(SR):
             R.rel[idx] = rad
             R.atom_by_rad[key] = a
         a = R.atom_by_rad[key]
-        r = AR.mk(a.scale(scale), f)
+        R.sqcands.setdefault(key, rad)
+        r = AR.mk((a * outside).scale(scale), f)
         return _fixsign(r)
 
     def eval(self, vals):
